@@ -93,13 +93,20 @@ def short_type(v):
 class Problems:
     """Collects at most one problem per (pattern, what)."""
 
-    def __init__(self, fmt):
+    def __init__(self, fmt, with_path=True):
         self.fmt = fmt
         self.items = {}
         self.values = 0
+        self.with_path = with_path
 
     def add(self, pattern, memtype, what, detail=""):
-        key = f"C19:{self.fmt}:{memtype}-at-{pattern or '<root>'}:{what}"
+        # the generator's extra nesting level is not part of the mechanism
+        pattern = "/".join(seg for seg in pattern.split("/") if seg != "deeper")
+        if self.with_path:
+            key = f"C19:{self.fmt}:{memtype}-at-{pattern or '<root>'}:{what}"
+        else:  # config.json: the keyword a value sits under is not part of the mechanism
+            key = f"C19:{self.fmt}:{memtype}:{what}"
+            detail = f"at {pattern or '<root>'}: {detail}"
         if key not in self.items:
             self.items[key] = str(detail)[:300]
 
